@@ -70,12 +70,15 @@ def assignClusters (package : Str) (cs : List ClassInfo) (comps : List (List Str
     | [] => .error PkgErr.keyError   -- `classes[0]` IndexError; components are never empty
   ) []
 
-/-- `group_by_strong_components` -/
+/-- `group_by_strong_components`.  The component generator is lazy: a component is
+sorted and assigned as soon as it is yielded, so an error raised while handling a
+yielded component precedes a later `KeyError` of the depth-first search. -/
 def groupByStrongComponents (package : Str) (cs : List ClassInfo) (vorder : List Str) :
     Except PkgErr (List (Str × Option (Str × Str))) :=
-  match stronglyConnectedComponents (classEdges cs) vorder with
-  | none => .error PkgErr.keyError
-  | some comps => (assignClusters package cs comps).map (finalAssignment cs)
+  let st := sccRun (classEdges cs) vorder
+  match assignClusters package cs st.out with
+  | .error e => .error e
+  | .ok acc => if st.err then .error PkgErr.keyError else .ok (finalAssignment cs acc)
 
 /-- `group_by_namespace_clusters` given the components; `nsPackage ns` stands for
 `".".join(combine_ns_package(ns))` (pure string function of the configuration). -/
@@ -92,8 +95,9 @@ def assignNsClusters (nsPackage : Option Str → Str) (cs : List ClassInfo)
 
 def groupByNamespaceClusters (nsPackage : Option Str → Str) (cs : List ClassInfo)
     (vorder : List Str) : Except PkgErr (List (Str × Option (Str × Str))) :=
-  match stronglyConnectedComponents (classEdges cs) vorder with
-  | none => .error PkgErr.keyError
-  | some comps => (assignNsClusters nsPackage cs comps).map (finalAssignment cs)
+  let st := sccRun (classEdges cs) vorder
+  match assignNsClusters nsPackage cs st.out with
+  | .error e => .error e
+  | .ok acc => if st.err then .error PkgErr.keyError else .ok (finalAssignment cs acc)
 
 end Xs.Codegen
